@@ -1,4 +1,4 @@
-\* C16 thorough: scenarios A-F of MC_C16.tla, safety: all invariants + the action property, deadlock freedom
+\* C16 thorough: scenarios A-D, F, N and A with a waiting client (MC_C16.tla), safety: all invariants + the action property, deadlock freedom
 CONSTANTS
   DtorWaitsBackground = TRUE
   NotifyOnAdd = TRUE
